@@ -34,6 +34,9 @@ def ilist(g, lo, hi, nmax, neg=False):
 def rand_rrule(g, start, opts):
     """(text of the RRULE value, dict of what it uses)"""
     f = g.wpick([('YEARLY', 3), ('MONTHLY', 3), ('WEEKLY', 3), ('DAILY', 3), ('HOURLY', 2), ('MINUTELY', 2), ('SECONDLY', 1)])
+    if opts.get('allday'):
+        # RFC 5545 3.3.10: BYSECOND, BYMINUTE and BYHOUR MUST NOT be specified when DTSTART is a DATE
+        f = g.wpick([('YEARLY', 3), ('MONTHLY', 3), ('WEEKLY', 3), ('DAILY', 3)])
     parts = ['FREQ=' + f]
     use = {'freq': f}
     if g.chance(0.45):
@@ -85,19 +88,20 @@ def rand_rrule(g, start, opts):
             parts.append('BYMONTH=' + ilist(g, 1, 12, 5))
         if g.chance(0.2):
             parts.append('BYMONTHDAY=' + ilist(g, 1, 31, 8, neg=True))
-    if f in ('DAILY', 'WEEKLY', 'MONTHLY', 'YEARLY') and g.chance(0.25):
+    sub = not opts.get('allday')
+    if sub and f in ('DAILY', 'WEEKLY', 'MONTHLY', 'YEARLY') and g.chance(0.25):
         parts.append('BYHOUR=' + ilist(g, 0, 23, 4))
         use['byhour'] = 1
-    if f != 'SECONDLY' and f != 'MINUTELY' and g.chance(0.25) or f == 'MINUTELY' and g.chance(0.15):
+    if sub and (f != 'SECONDLY' and f != 'MINUTELY' and g.chance(0.25) or f == 'MINUTELY' and g.chance(0.15)):
         parts.append('BYMINUTE=' + ilist(g, 0, 59, 4))
         use['byminute'] = 1
-    if f != 'SECONDLY' and g.chance(0.2):
+    if sub and f != 'SECONDLY' and g.chance(0.2):
         parts.append('BYSECOND=' + ilist(g, 0, 59, 4))
         use['bysecond'] = 1
     if g.chance(0.15) and len(parts) > 2:
         parts.append('BYSETPOS=' + ilist(g, 1, 4, 3, neg=True))
         use['bysetpos'] = 1
-    if g.chance(0.08) and f in ('YEARLY', 'MONTHLY'):
+    if g.chance(0.08) and f in ('YEARLY', 'MONTHLY') and not opts.get('avoid_shift'):
         parts.append('SHIFT=' + g.pick(['1', '7', '-1', '1B', '1B+', '-2B']))
         use['shift'] = 1
     if g.chance(0.06) and f in ('YEARLY', 'MONTHLY'):
@@ -142,7 +146,7 @@ def gen_case(seed, tier, opts=None):
         nr = g.wpick([(1, 8), (2, 1 if not opts.get('avoid_multi') else 0), (0, 0.5)])
         use = {}
         for _ in range(nr):
-            txt, u = rand_rrule(g, start, opts)
+            txt, u = rand_rrule(g, start, dict(opts, allday=allday))
             lines.append('RRULE:' + txt)
             use.update(u)
         use['nrules'] = nr
@@ -173,6 +177,9 @@ def gen_case(seed, tier, opts=None):
             sp['maxsimul'] = g.pick(['1', '2', '7', '62', '63'])
         sp['extra_lines'] = lines
         evs.append(ical.event_text(sp))
+        # classes of the recorded known findings (several RRULEs, RDATE, EXDATE/EXRULE, SHIFT): the occurrences after
+        # a round trip are known to differ; everything else (fields, no crash, a well-formed text) is still checked
+        use['loose'] = bool(nr > 1 or use.get('rdate') or use.get('exdate') or use.get('exrule') or use.get('shift'))
         uses.append(use)
     text = ical.calendar_text(evs)
     ks = set([0, 1])
@@ -191,7 +198,11 @@ TOK = re.compile(r' (\w+)=("(?:[^"\\]|\\.)*"|\[[^\]]*\]|\S+)')
 
 
 def fields_of(dump):
-    return dict(TOK.findall(dump))
+    d = dict(TOK.findall(dump))
+    if 'occ' in d:
+        # an instant with an explicit .000 and one without name the same moment
+        d['occ'] = d['occ'].replace('.000+', '+')
+    return d
 
 
 def parse_rt(out):
@@ -222,7 +233,23 @@ def parse_rt(out):
 ATTRS = ['uid', 'cmd', 'owner', 'u', 'g', 'wd', 'sh', 'org', 'att', 'in', 'out', 'err', 'mail', 'maxsimul', 'umask']
 
 
-def judge_task(t, K):
+def wellformed(text):
+    """structure of a written calendar, independent of the SUT's parser"""
+    comps = ical.split_components(text, 'VEVENT')
+    if text and not text.startswith('BEGIN:VCALENDAR\n'):
+        return 'does not start with BEGIN:VCALENDAR'
+    if text and not text.endswith('END:VCALENDAR\n'):
+        return 'does not end with END:VCALENDAR'
+    for props in comps:
+        keys = [k for k, p, v in props]
+        if 'UID' not in keys:
+            return 'VEVENT without UID'
+        if 'DTSTART' not in keys:
+            return 'VEVENT without DTSTART'
+    return None
+
+
+def judge_task(t, K, loose=False):
     V = []
     if 'ctrl' not in t or 'orig' not in t:
         return [('R-MACHINERY rt', 'incomplete block')]
@@ -238,7 +265,10 @@ def judge_task(t, K):
     rest = fc.get('occ', '[]')
     exhausted = rest.strip('[] ') in ('END', '') or 'nostrm' in t['ctrl']
     if not t['back']:
-        if not exhausted:
+        bad = wellformed(t.get('text', ''))
+        if bad:
+            V.append(('R-RT malformed', 'after %d pops the written text is not a well-formed calendar: %s' % (t['k'], bad)))
+        elif not exhausted:
             V.append(('R-RT not-written', 'after %d pops occurrences remain (%s) but the written text holds no task' % (t['k'], rest[:80])))
         return V
     if len(t['back']) != 1:
@@ -249,9 +279,24 @@ def judge_task(t, K):
         if fb.get(a) != fc.get(a):
             V.append(('R-RT field:' + a, 'after %d pops: %s is %s, read back as %s' % (t['k'], a, fc.get(a), fb.get(a))))
             return V
-    if fb.get('occ') != rest:
-        co = rest.strip('[]').split()
-        bo = fb.get('occ', '[]').strip('[]').split()
+    bad = wellformed(t.get('text', ''))
+    if bad:
+        V.append(('R-RT malformed', 'after %d pops the written text is not a well-formed calendar: %s' % (t['k'], bad)))
+        return V
+    if loose:
+        return V
+    def upto2099(toks):
+        # (the recurrence engine's calendar is off beyond 2099, where 2100 is no leap year: not a C05 matter)
+        out = []
+        for x in toks:
+            if x != 'END' and x[:4].isdigit() and int(x[:4]) >= 2100:
+                break
+            out.append(x)
+        return out
+    co = upto2099(rest.strip('[]').split())
+    bo = upto2099(fb.get('occ', '[]').strip('[]').split())
+    n = min(len(co), len(bo)) if (len(co) < len(rest.strip('[]').split()) or len(bo) < len(fb.get('occ', '[]').strip('[]').split())) else max(len(co), len(bo))
+    if co[:n] != bo[:n]:
         i = next((j for j in range(min(len(co), len(bo))) if co[j] != bo[j]), min(len(co), len(bo)))
         what = 'duration' if i < len(co) and i < len(bo) and co[i].split('+')[0] == bo[i].split('+')[0] else 'occurrences'
         V.append(('R-RT ' + what, 'after %d pops the remaining occurrences are %s ... but the written task yields %s ... (first difference at #%d)'
@@ -259,11 +304,26 @@ def judge_task(t, K):
     return V
 
 
-def check_case(text, ks):
+def loose_tasks(text):
+    """indices of the events that fall into the classes of the recorded known
+    findings (several RRULEs, RDATE, EXDATE/EXRULE, SHIFT): their occurrences
+    after a round trip are known to differ and are not compared"""
+    out = []
+    for i, props in enumerate(ical.split_components(text, 'VEVENT')):
+        keys = [k for k, p, v in props]
+        rr = [v for k, p, v in props if k == 'RRULE']
+        if len(rr) > 1 or 'RDATE' in keys or 'EXDATE' in keys or 'EXRULE' in keys or any('SHIFT=' in (v or '') for v in rr):
+            out.append(i)
+    return out
+
+
+def check_case(text, ks, strict=False):
+    """STRICT: compare occurrences of the known-finding classes too (their witnesses)"""
+    loose = [] if strict else loose_tasks(text)
     data = text.encode('latin1')
     kmax = max(ks)
-    jobs = [simp.input_line(data), simp.parse_job('f', 'b', [0], kmax + NOCC)]
-    jobs += ['rt %d %d' % (k, NOCC) for k in ks]
+    jobs = [simp.input_line(data), simp.parse_job('f', 'b', [0], kmax + NOCC) + ' 4']
+    jobs += ['rt %d %d 4' % (k, NOCC) for k in ks]
     res = simp.run_jobs(jobs, timeout=900)
     if len(res) != 1 + len(ks):
         return [('R-MACHINERY simp', 'no result', None)], '', {'machinery': 1}
@@ -285,13 +345,14 @@ def check_case(text, ks):
             V.append(('R-CRASHFREE serialise-crash', 'rt %d: %s' % (k, last), k))
             continue
         for t in parse_rt(out):
-            for sig, detail in judge_task(t, k):
+            for sig, detail in judge_task(t, k, t['i'] in loose):
                 V.append((sig, 'task %d: %s\nwritten text:\n%s' % (t['i'], detail, t.get('text', '')), k))
     return V, '\n'.join(outs), info
 
 
 def run_seed(seed, tier, opts=None):
     text, ks, uses = gen_case(seed, tier, opts)
+    loose = loose_tasks(text)
     V, out, info = check_case(text, ks)
     viol = []
     seen = set()
@@ -303,6 +364,8 @@ def run_seed(seed, tier, opts=None):
         viol.append({'rule': rule, 'sig': s, 'detail': detail, 'prop': 'C05', 'input': text.encode('latin1').hex(),
                      'sched': ','.join(str(x) for x in ([k] if k is not None else ks)), 'case': 'rt'})
     probes = {}
+    if loose:
+        probes['known_finding_class_checked_loosely'] = len(loose)
     for u in uses:
         for key in ('bysetpos', 'byminute', 'bysecond', 'byhour', 'shift', 'scale', 'rdate', 'exdate', 'exrule', 'until', 'duration', 'dtend', 'wkst'):
             if u.get(key):
@@ -326,7 +389,7 @@ def run_seed(seed, tier, opts=None):
 def replay(doc):
     text = bytes.fromhex(doc['input']).decode('latin1')
     ks = [int(x) for x in doc['sched'].split(',') if x != '']
-    V, _, _ = check_case(text, ks)
+    V, _, _ = check_case(text, ks, bool(doc.get('strict')))
     return [{'rule': s.split(' ', 1)[0], 'sig': s.split(' ', 1)[1], 'detail': d} for s, d, _ in V]
 
 
